@@ -71,7 +71,8 @@ def _history():
     cancel = st.fixed_dictionaries({'op': st.just('cancel'), 'i': st.integers(0, 7), 'race': st.sampled_from([None, None, 'data', 'nack'])})
     op = st.one_of(express, express, data, data, data, nack, adv, adv, adv, cancel)
     free = st.tuples(st.lists(express, min_size=1, max_size=4), st.lists(op, min_size=2, max_size=20),
-                     st.sampled_from([[], [], [], [{'op': 'shutdown'}], [{'op': 'shutdown', 'how': 'cancel-main'}]])).map(lambda t: t[0] + t[1] + t[2])
+                     st.sampled_from([[], [], [], [{'op': 'shutdown'}], [{'op': 'shutdown', 'how': 'cancel-main'}],
+                                      [{'op': 'shutdown', 'how': 'transport-error'}]])).map(lambda t: t[0] + t[1] + t[2])
     return st.one_of(free, free, _templates(express, op))
 
 
@@ -443,6 +444,14 @@ def _run(sim, fe, ops, r):
                     sim.vl.call(sim.main_task.cancel)
                     sim.vl.settle()
                     flags.add('main-loop-cancelled')
+                elif op.get('how') == 'transport-error' and sim.main_task is not None:
+                    # the face goes down because the transport breaks (its run() raises, and so does main_loop())
+                    sim.vl.call(sim.face.fail, BrokenPipeError('transport broke'))
+                    sim.vl.settle()
+                    if sim.main_task.done() and not sim.main_task.cancelled():
+                        sim.main_task.exception()
+                    sim.main_task = None
+                    flags.add('transport-error')
                 else:
                     sim.shutdown()
                 alive = False
